@@ -19,8 +19,19 @@ def handle : Handler := fun j => do
     let expectedExit := cdiExit errKeys
     -- with cache errors the tool prints the error report and exits before the sub-command runs
     let specFiles := out.filterMap (fun l => if hasPrefix (lit "Spec file ") l then some ((l.drop 10).dropLast) else none)
+    let verbose := getBoolD j "verbose" false
+    let format : Str := match getStr j "format" with | .ok f => f | .error _ => []
+    let args : List Str := match getStrList j "args" with | .ok a => a | .error _ => []
     let expected : List Str ← match cmd with
-      | "devices" => do pure (renderDevices (← getStrList lib "devices"))
+      | "devices" => do
+        if verbose then
+          let vs ← (← getArr lib "devviews").toList.mapM fun e => do
+            pure ({ name := ← getStr e "name", path := ← getStr e "path", devJson := ← getStr e "devjson",
+                    devYaml := ← getStr e "devyaml", nGlobal := ← getNat e "nglobal",
+                    editsJson := ← getStr e "editsjson", editsYaml := ← getStr e "editsyaml" } : DevView)
+          pure (renderDevicesV true format vs)
+        else pure (renderDevices (← getStrList lib "devices"))
+      | "dirs" => do pure (renderDirs (← getStrList lib "dirs"))
       | "vendors" => do
         let vs ← (← getArr lib "vendors").toList.mapM fun e => do pure (← getStr e "vendor", ← getNat e "nspecs")
         pure (renderVendors vs)
@@ -28,8 +39,15 @@ def handle : Handler := fun j => do
         let cs ← (← getArr lib "classes").toList.mapM fun e => do pure (← getStr e "class", ← getStrList e "vendors")
         pure (renderClasses cs)
       | "specs" => do
-        let vs ← (← getArr lib "specs").toList.mapM fun e => do pure (← getStr e "vendor", ← getStrList e "paths")
-        pure (renderSpecs vs)
+        if verbose || args != [] then
+          let vs ← (← getArr lib "specviews").toList.mapM fun e => do
+            let ss ← (← getArr e "specs").toList.mapM fun x => do
+              pure ({ path := ← getStr x "path", json := ← getStr x "json", yaml := ← getStr x "yaml" } : SpecView)
+            pure (← getStr e "vendor", ss)
+          pure (renderSpecsV verbose format args vs)
+        else
+          let vs ← (← getArr lib "specs").toList.mapM fun e => do pure (← getStr e "vendor", ← getStrList e "paths")
+          pure (renderSpecs vs)
       | "validate" => pure [line "No CDI cache errors."]
       | _ => throw s!"cli: unknown sub-command {cmd}"
     let (agree, judge) : Bool × Option String :=
@@ -42,7 +60,8 @@ def handle : Handler := fun j => do
         (out == expected && exit == 0,
          if exit != expectedExit then some "exit-status-nonzero-without-cache-errors"
          else if out != expected then some s!"{cmd}-listing-differs-from-library" else none)
-    pure (verdict agree judge (hexList expected) [s!"cmd-{cmd}", if errKeys != [] then "with-errors" else "clean"])
+    pure (verdict agree judge (hexList expected) [s!"cmd-{cmd}", if errKeys != [] then "with-errors" else "clean",
+      if verbose then s!"verbose-{String.ofList (format.map (fun b => Char.ofNat b.toNat))}" else "plain", if args != [] then "vendor-args" else "no-args"])
   | "monitor" =>
     -- `cdi --spec-dirs … monitor devices`: the listing printed after the last change is the device renderer applied
     -- to what the library computes for the directories as they are then
@@ -52,13 +71,26 @@ def handle : Handler := fun j => do
     let judge : Option String := if skipped || out == expected then none else some "monitor-listing-differs-from-library"
     pure (verdict judge.isNone judge (hexList expected) [if skipped then "monitor-skipped" else "cmd-monitor"])
   | "inject" =>
+    -- which devices the patterns select: the harness sends filepath.Match's verdict per (device, pattern)
+    let selOK : Bool := match (do
+        let devs ← getStrList lib "listed"
+        let pats ← getStrList j "patterns"
+        let rows ← (← getArr lib "matrix").toList.mapM fun r => do (← r.getArr?).toList.mapM (·.getNat?)
+        let chosen ← getStrList lib "selected"
+        let m : Str → Str → Option Bool := fun p d =>
+          match devs.idxOf? d, pats.idxOf? p with
+          | some i, some k => match (rows.getD i []).getD k 2 with | 0 => some false | 1 => some true | _ => none
+          | _, _ => none
+        pure (selectDevices m pats devs == some chosen || (selectDevices m pats devs).isNone) : Except String Bool) with
+      | .ok b => b | .error _ => true
     let same ← getBool obs "sameaslibrary"
     let exit ← getNat obs "exit"
     let libErr ← getBool lib "err"
     let judge : Option String :=
       if libErr then (if exit == 0 then some "inject-exit-zero-despite-library-error" else none)
       else if exit != 0 then some "inject-failed-although-library-succeeds"
-      else if !same then some "printed-oci-spec-differs-from-library-injection" else none
+      else if !same then some "printed-oci-spec-differs-from-library-injection"
+      else if !selOK then some "selected-devices-differ-from-the-matched-set" else none
     pure (verdict judge.isNone judge Json.null [if libErr then "inject-error" else "inject-ok"])
   | "validatetool" =>
     let exit ← getNat obs "exit"
